@@ -427,6 +427,103 @@ Proof.
   destruct isbool; destruct (bad (c :: r) v); reflexivity.
 Qed.
 
+(* ---------- the verdict of ParseFlags, for any flag list ----------
+   ParseFlags succeeds iff flag.Parse does and, for every registered flag the command line
+   does not set, the value of the first present other source is accepted by the flag's type. *)
+Definition chosen_ok (bad : str -> str -> bool) (calls : list (str * str)) (environ prefixes : list str)
+           (props : option smap) (f : flagdecl) : bool :=
+  match cmd_value calls (fname f) with
+  | Some _ => true                    (* accepted by flag.Parse already *)
+  | None => match spec_choice_gen calls environ prefixes props (fname f) with
+            | Some v => negb (bad (fname f) v)
+            | None => true
+            end
+  end.
+
+Lemma visit_rejected bad calls environ prefixes props f :
+  rejected bad (visit calls (match prefixes with [] => [[]] | _ => prefixes end)
+                      (env_map environ []) props f)
+  = negb (chosen_ok bad calls environ prefixes props f).
+Proof.
+  destruct (visit_choice calls (match prefixes with [] => [[]] | _ => prefixes end)
+                         (env_map environ []) props f) as (Hn & Hf & _).
+  assert (Hspec : final_raw (visit calls (match prefixes with [] => [[]] | _ => prefixes end)
+                                   (env_map environ []) props f)
+                  = spec_choice_gen calls environ prefixes props (fname f)).
+  { rewrite Hf. unfold spec_choice_gen. f_equal. f_equal. f_equal.
+    apply map_ext. intros p. apply env_map_value. }
+  unfold chosen_ok, rejected. rewrite Hn. rewrite <- Hspec. clear Hf Hspec.
+  unfold visit, final_raw.
+  destruct (calls_for (fname f) calls) as [|c cs] eqn:Ec.
+  - rewrite (calls_for_nil _ _ Ec).
+    destruct (env_lookup _ 0 (env_map environ []) (fname f)) as [[i v]|].
+    + cbn [r_src r_calls rev app]. rewrite negb_involutive. reflexivity.
+    + destruct props as [p|]; [destruct (map_get p (fname f)) as [v|]|];
+        cbn [r_src r_calls rev app]; try rewrite negb_involutive; reflexivity.
+  - cbn [r_src]. pose proof (calls_for_final (fname f) calls) as Hc. rewrite Ec in Hc.
+    destruct (rev (c :: cs)) as [|v vs] eqn:Er.
+    + apply (f_equal (@length _)) in Er. rewrite rev_length in Er. discriminate.
+    + rewrite <- Hc. reflexivity.
+Qed.
+
+Theorem parse_flags_verdict_spec flags bad args environ prefixes props calls :
+  parse_args flags bad args [] = Ok calls ->
+  is_ok (parse_flags flags bad args environ prefixes props)
+  = forallb (chosen_ok bad calls environ prefixes props) flags.
+Proof.
+  intros Hc. rewrite (parse_flags_unfold flags bad _ _ _ _ _ Hc). unfold finish_visit, visited.
+  assert (E : existsb (rejected bad)
+                (map (visit calls (match prefixes with [] => [[]] | _ => prefixes end)
+                            (env_map environ []) props) flags)
+              = negb (forallb (chosen_ok bad calls environ prefixes props) flags)).
+  { induction flags as [|f fs IH]; [reflexivity|]. cbn [map existsb forallb].
+    rewrite visit_rejected, negb_andb. f_equal.
+    (* IH was stated for the section-free lemma: re-prove pointwise *)
+    clear IH Hc. induction fs as [|g gs IHg]; [reflexivity|]. cbn [map existsb forallb].
+    rewrite visit_rejected, negb_andb. f_equal. exact IHg. }
+  rewrite E. destruct (forallb _ flags); reflexivity.
+Qed.
+
+(* the other spellings of a command-line assignment mean the same as "-name=v" *)
+Lemma cmdline_spellings bad name isbool v :
+  plain_name name ->
+  let flags := [{| fname := name; fbool := isbool |}] in
+  parse_args flags bad [45 :: 45 :: name ++ 61 :: v] [] = parse_args flags bad [45 :: name ++ 61 :: v] [] /\
+  (isbool = false ->
+   parse_args flags bad [45 :: name; v] [] = parse_args flags bad [45 :: name ++ 61 :: v] [] /\
+   parse_args flags bad [45 :: 45 :: name; v] [] = parse_args flags bad [45 :: name ++ 61 :: v] []) /\
+  (isbool = true ->
+   parse_args flags bad [45 :: name] [] = parse_args flags bad [45 :: name ++ 61 :: bs "true"] []).
+Proof.
+  intros Hn flags. subst flags.
+  assert (Hsplit0 : forall n, ~ In 61 n -> cut_eq n = (n, None)).
+  { induction n as [|c n IH]; intros H; cbn [cut_eq]; [reflexivity|].
+    destruct (c =? 61) eqn:E; [apply N.eqb_eq in E; subst; exfalso; apply H; left; reflexivity|].
+    rewrite IH; [reflexivity|]. intros Hin. apply H. right. exact Hin. }
+  rewrite !(cmdline_verdict bad name isbool _ Hn).
+  destruct name as [|c r]; [destruct Hn|]. destruct Hn as (H45 & H61 & Hr).
+  apply N.eqb_neq in H45, H61.
+  split; [|split].
+  - cbn [parse_args app]. cbn [N.eqb Pos.eqb negb andb]. rewrite H45, H61. cbn [orb].
+    unfold split_flag_value. rewrite (cut_eq_app r v Hr).
+    unfold lookup_flag. cbn [find fname]. rewrite beq_refl. cbn [fbool].
+    destruct isbool; destruct (bad (c :: r) v); reflexivity.
+  - intros ->. split.
+    + cbn [parse_args app]. cbn [N.eqb Pos.eqb negb]. rewrite H45. cbn [andb]. rewrite H45, H61. cbn [orb].
+      unfold split_flag_value. rewrite (Hsplit0 r Hr).
+      unfold lookup_flag. cbn [find fname]. rewrite beq_refl. cbn [fbool].
+      destruct (bad (c :: r) v); reflexivity.
+    + cbn [parse_args app]. cbn [N.eqb Pos.eqb negb andb]. rewrite H45, H61. cbn [orb].
+      unfold split_flag_value. rewrite (Hsplit0 r Hr).
+      unfold lookup_flag. cbn [find fname]. rewrite beq_refl. cbn [fbool].
+      destruct (bad (c :: r) v); reflexivity.
+  - intros ->.
+    cbn [parse_args app]. cbn [N.eqb Pos.eqb negb]. rewrite H45. cbn [andb]. rewrite H45, H61. cbn [orb].
+    unfold split_flag_value. rewrite (Hsplit0 r Hr).
+    unfold lookup_flag. cbn [find fname]. rewrite beq_refl. cbn [fbool].
+    destruct (bad (c :: r) _); reflexivity.
+Qed.
+
 Lemma visited_fabio flags calls environ props :
   visited flags calls environ fabio_prefixes props
   = map (visit calls fabio_prefixes (env_map environ []) props) flags.
